@@ -21,6 +21,7 @@ func C09(c *Ctx) {
 	r.Rule("C09-e", "closed world of rewrites: the optimizer visitors store only to the (type, field) pairs of the documented rewrites (operand slots of the composite kinds, LitMatcher.Val, the member lists and Val of CharClassMatcher, Grammar.Rules); a store to any other field is a rewrite no side-condition rule covers")
 	r.Rule("C09-f", "effects of the merge rewrites: (1) merging two classes appends all three member lists (Chars, Ranges, UnicodeClasses) of the second to the first; (2) in every merge case the node that received the members is the one left at index i-1 (it already is, or it is stored there) before element i is removed; (3) removal of element i happens iff a merge was applied; (4) a referenced rule is inlined only when it is defined and uses no rules; (5) the reference bookkeeping records both directions and the clean-up after removing a rule deletes exactly that rule from the user sets; (6) the duplicate removal of cleanupCharClassMatcher keeps every distinct member (append under the not-seen test) for all three lists")
 	r.Rule("C09-i", "closed world of node replacements: optimizeRule puts in the place of an expression only the expression itself, a clone of the rule a reference names (guarded by C09-f), or the only element of a list field under the fact that the list has length 1 (choice of one alternative, sequence of one item); an operand of any other kind - the handler of a recovery operator, the operand of a predicate, repetition, label or action - does not mean what the node means")
+	r.Rule("C09-j", "the text of a character class is display text: the optimizer rebuilds CharClassMatcher.Val for merged classes without escaping ^ - ] \\, so it does not identify the class; every read of it in the builder and the optimizer is the argument of the emitted `val:` key (a map key, comparison or cache keyed by it takes different classes for one)")
 	r.Rule("C09-g", "the inlining pass offers every operand slot to optimizeRule: for every kind with Expression children (and Rule) the optimize visitor stores optimizeRule(slot) into every slot on every path of that kind's case - the per-rule-pair usage bookkeeping is cleared by the first inlining, so a skipped slot keeps a reference to a rule that is then removed")
 	r.Rule("C09-h", "a clone keeps every field: each &T{…} built by cloneExpr for an expression kind lists every field of T, taken from the same field of the source, except the flags only the analysis passes store (Nullable): a field left out is zero in every inlined copy (a throw without its label)")
 	r.Rule("C09-b", "each case of the alternative-merge switch that builds or extends a CharClassMatcher requires !X.Inverted for every class operand, IgnoreCase equality of the two operands and a single rune for every literal operand")
@@ -416,6 +417,7 @@ func c09Effects(c *Ctx, g *load.G) {
 	optimizerSlotCoverage(c, g, "C09-g")
 	cloneKeepsFields(c, g, "C09-h")
 	optimizerUnwraps(c, g, "C09-i")
+	classTextIsDisplayOnly(c, g, "C09-j")
 	// (6) duplicate removal keeps every distinct member
 	cf := load.FuncDecl(ap, "grammarOptimizer", "cleanupCharClassMatcher")
 	if cf != nil {
